@@ -36,6 +36,7 @@ type refVal struct {
 	Configs    []refCfg
 	Identities map[common.Address]string // accepted validator key per keyper
 	Valset     map[string]int64          // reference tendermint validator set
+	Seen       map[common.Address]uint64 // accepted block-seen reports (latest block number per keyper)
 	ForkOn     bool
 }
 
@@ -43,6 +44,7 @@ type refCfg struct {
 	Keypers   []common.Address
 	Threshold uint64
 	Index     uint64
+	Act       uint64 // activation block number
 	Started   bool
 	Quorum    bool // check-in quorum was met at some block end after the start
 }
@@ -54,8 +56,11 @@ type c12node struct {
 }
 
 func (r *refVal) clone() *refVal {
-	n := &refVal{ForkOn: r.ForkOn, Identities: map[common.Address]string{}, Valset: map[string]int64{}}
+	n := &refVal{ForkOn: r.ForkOn, Identities: map[common.Address]string{}, Valset: map[string]int64{}, Seen: map[common.Address]uint64{}}
 	n.Configs = append(n.Configs, r.Configs...)
+	for k, v := range r.Seen {
+		n.Seen[k] = v
+	}
 	for k, v := range r.Identities {
 		n.Identities[k] = v
 	}
@@ -161,15 +166,18 @@ type c12cfg struct {
 
 func c12World(cf c12cfg) (*appx.World, appx.Genesis, []appx.Op) {
 	total := cf.N + 1
-	u := appx.NewUniverse(total + 1)
+	u := appx.NewUniverse(total + 2)
 	members := make([]int, cf.N)
 	for i := range members {
 		members[i] = i
 	}
 	// candidate 0: rotate the set (drop keyper 0, add the extra participant N)
 	rot := append(append([]int{}, members[1:]...), cf.N)
+	// candidate 1: rotate once more (drop the next keyper, add participant N+1)
+	rot2 := append(append([]int{}, rot[1:]...), cf.N+1)
 	w := &appx.World{U: u, Candidates: []appx.Candidate{
 		{Members: rot, Threshold: uint64(cf.T), IndexPlus: 1, Act: 5},
+		{Members: rot2, Threshold: uint64(cf.T), IndexPlus: 1, Act: 5},
 	}, SeenBlocks: []uint64{5}}
 	g := appx.Genesis{Members: members, Threshold: uint64(cf.T), ForkEnabled: cf.Fork}
 	var ops []appx.Op
@@ -206,18 +214,54 @@ func c12Step(w *appx.World, genesisSet map[string]int64, n c12node, o appx.Op, s
 		switch o.Kind {
 		case "checkin":
 			ref.Identities[w.U.Addrs[o.Sender]] = string(w.U.ValKey(o.Sender, o.A))
+		case "seen":
+			ref.Seen[w.U.Addrs[o.Sender]] = w.SeenBlocks[o.A]
 		case "cfg":
 			for _, ev := range res.Deliver.Events {
 				if ev.Type == "shutter.batch-config" {
 					c := w.Candidates[o.A]
 					last := ref.Configs[len(ref.Configs)-1]
-					ref.Configs = append(ref.Configs, refCfg{Keypers: w.U.AddrsOf(c.Members), Threshold: c.Threshold, Index: last.Index + uint64(c.IndexPlus)})
+					ref.Configs = append(ref.Configs, refCfg{Keypers: w.U.AddrsOf(c.Members), Threshold: c.Threshold, Index: last.Index + uint64(c.IndexPlus), Act: c.Act})
 				}
 			}
 		}
 		return next, ""
 	}
-	// block end
+	// block end: which configurations start now is decided by the reference itself
+	// (a configuration starts once a threshold of the preceding configuration's
+	// keypers reported a main-chain block at or past its activation block; the
+	// genesis configuration precedes itself) and compared with the application's events
+	var wantStart []uint64
+	for i := range ref.Configs {
+		c := ref.Configs[i]
+		if c.Started {
+			continue
+		}
+		prev := ref.Configs[0]
+		if i > 0 {
+			prev = ref.Configs[i-1]
+		}
+		var cnt uint64
+		for _, k := range prev.Keypers {
+			if blk, ok := ref.Seen[k]; ok && blk >= c.Act {
+				cnt++
+			}
+		}
+		if cnt >= prev.Threshold {
+			wantStart = append(wantStart, c.Index)
+		}
+	}
+	var gotStart []uint64
+	for _, ev := range res.End.Events {
+		if ev.Type == "shutter.batch-config-started" {
+			var idx uint64
+			fmt.Sscanf(string(ev.Attributes[0].Value), "%d", &idx)
+			gotStart = append(gotStart, idx)
+		}
+	}
+	if fmt.Sprint(wantStart) != fmt.Sprint(gotStart) {
+		return next, fmt.Sprintf("configurations started at this block end: %v, but a threshold of the preceding configuration's keypers has reported a block at or past the activation block exactly for %v (block reports %v)", gotStart, wantStart, len(ref.Seen))
+	}
 	for _, ev := range res.End.Events {
 		if ev.Type == "shutter.batch-config-started" {
 			var idx uint64
@@ -330,7 +374,7 @@ func c12() *report.Check {
 				w, g, alphabet := c12World(cf)
 				a, _ := w.U.NewApp(g)
 				genesisSet := map[string]int64{string(appx.GenesisValidator): 10}
-				ref := &refVal{ForkOn: cf.Fork, Identities: map[common.Address]string{}, Valset: map[string]int64{string(appx.GenesisValidator): 10},
+				ref := &refVal{ForkOn: cf.Fork, Identities: map[common.Address]string{}, Seen: map[common.Address]uint64{}, Valset: map[string]int64{string(appx.GenesisValidator): 10},
 					Configs: []refCfg{{Keypers: w.U.AddrsOf(g.Members), Threshold: g.Threshold, Index: 0}}}
 				if p := c12Parallel(cf); p > 2 {
 					runtime.GOMAXPROCS(p)
@@ -372,6 +416,55 @@ func c12() *report.Check {
 				live.pre = seedOps
 				inits = append(inits, live)
 				b.Run(inits)
+				// third initial state: two further configurations accepted one after the other
+				// ({1..N} voted in by the genesis keypers, {2..N+1} by the keypers of the
+				// first), nobody has reported a block or checked in. From here the search is
+				// over block reports and check-ins of all N+2 participants only: which
+				// configuration starts first, and whose quorum is met, is up to their order.
+				if !b.Stop && b.Capped == "" && cf.N >= 2 {
+					three := inits[0]
+					var pre []appx.Op
+					for s := 0; s < cf.T; s++ {
+						pre = append(pre, op("cfg", s, 0, 0))
+					}
+					for s := 1; s <= cf.T; s++ {
+						pre = append(pre, op("cfg", s, 1, 0))
+					}
+					ok := true
+					for _, o := range pre {
+						var msg string
+						three, msg = c12Step(w, genesisSet, three, o, c.Stats)
+						if msg != "" {
+							c.Violation("C12/validator-set-not-as-intended", fmt.Sprintf("n=%d t=%d fork=%v in seed history %v at %s:\n%s", cf.N, cf.T, cf.Fork, pre, o, msg), c12Replay{Cfg: cf, Ops: pre})
+							ok = false
+							break
+						}
+					}
+					if ok && len(three.ref.Configs) == 3 {
+						three.pre = pre
+						alphabet = nil
+						for s := 0; s <= cf.N+1; s++ {
+							alphabet = append(alphabet, op("seen", s, 0, 0), op("checkin", s, 0, 0))
+						}
+						alphabet = append(alphabet, endblock)
+						b1 := b
+						b3 := *b
+						b3.States, b3.Transitions, b3.DepthDone, b3.FrontierCut, b3.Capped = 0, 0, 0, 0, ""
+						b3.MaxDepth = depth - 1
+						b = &b3
+						b.Run([]c12node{three})
+						c.Stats.States += int64(b.States)
+						c.Stats.Transitions += int64(b.Transitions)
+						c.Stats.Evaluations += int64(b.Transitions)
+						if b.Capped != "" {
+							c.Stats.Cap(fmt.Sprintf("n=%d t=%d fork=%v, three configurations: %s at depth %d", cf.N, cf.T, cf.Fork, b.Capped, b.DepthDone))
+						}
+						c.Stats.SetExtra(fmt.Sprintf("n%d_t%d_fork%v_three_configs", cf.N, cf.T, cf.Fork), map[string]any{"states": b.States, "transitions": b.Transitions, "depth_completed": b.DepthDone})
+						b = b1
+					} else if ok {
+						c.Stats.Class(fmt.Sprintf("three-configuration seed not reached (%d configs)", len(three.ref.Configs)))
+					}
+				}
 				c.Stats.States += int64(b.States)
 				c.Stats.Transitions += int64(b.Transitions)
 				c.Stats.Evaluations += int64(b.Transitions)
@@ -398,7 +491,7 @@ func c12() *report.Check {
 			w, g, _ := c12World(rp.Cfg)
 			a, _ := w.U.NewApp(g)
 			genesisSet := map[string]int64{string(appx.GenesisValidator): 10}
-			n := c12node{node{a, 0}, &refVal{ForkOn: rp.Cfg.Fork, Identities: map[common.Address]string{}, Valset: map[string]int64{string(appx.GenesisValidator): 10},
+			n := c12node{node{a, 0}, &refVal{ForkOn: rp.Cfg.Fork, Identities: map[common.Address]string{}, Seen: map[common.Address]uint64{}, Valset: map[string]int64{string(appx.GenesisValidator): 10},
 				Configs: []refCfg{{Keypers: w.U.AddrsOf(g.Members), Threshold: g.Threshold, Index: 0}}}, nil}
 			for _, o := range rp.Ops {
 				var msg string
